@@ -906,8 +906,12 @@ func runC14(c *core.Ctx) core.Meta {
 
 	checkIntegerWidths(c, "R14.16", "Outstanding-access counters are wide enough for what can be in flight.", 2, []widthScope{{rel: wfPkg}, {rel: cuPkg}}, []string{"narrow-counter"}, widthAllowC14)
 	checkRegisterFileOffsetPairing(c, "R14.17")
-	RunProto(c, &ProtoCfg{RuleBase: "R14.18", Pkg: cuPkg, FloorSends: 1, NoProgressRule: true, Effects: []Effect{{Label: "transaction-pop", Consume: true, Match: func(n *core.Node) bool { m, ok := MethodOnField(n.Instr, "VectorMemoryUnit.postTransactionPipelineBuffer", "Pop"); return ok && m != "" }}}, OnlyFuncs: func(name string) bool { return name == "VectorMemoryUnit.sendRequest" }})
+	RunProto(c, &ProtoCfg{RuleBase: "R14.18", Pkg: cuPkg, FloorSends: 1, NoProgressRule: true, Effects: []Effect{{Label: "transaction-pop", Consume: true, Match: func(n *core.Node) bool {
+		m, ok := MethodOnField(n.Instr, "VectorMemoryUnit.postTransactionPipelineBuffer", "Pop")
+		return ok && m != ""
+	}}}, OnlyFuncs: func(name string) bool { return name == "VectorMemoryUnit.sendRequest" }})
 	checkRetiredOnlyIfAccepted(c, "R14.19")
+	checkUniversalScan(c, "R14.20", "The emulator's ComputeUnit.isAllWfCompleted walks all wavefronts of the work-group and leaves with false from the arm where one is not completed. A tally that is reset inside the walk remembers only the last wavefront: the work-group is reported complete while earlier wavefronts are still at a barrier, and their remaining instructions are never run", emuPkg, "ComputeUnit.isAllWfCompleted", "wfs", "Completed")
 	return core.Meta{Level: "other",
 		Explanation: "Structural clauses of execution ordering in the timing compute unit (and the emulator's barrier resolution): completion only with both outstanding-access counters at zero, wait-count comparison pairs, ownership and last-piece guarding of the counters, the accepted-state sets of the barrier predicates evaluated as decision tables and compared with {at barrier, completed}, barrier release only under those predicates, work-group completion message only when all other wavefronts completed, with release of resources only after a successful send.",
 		NotDecided:  "the issue-trace ordering under all memory latencies and occupancies (a schedule property); scoreboard hazards; the SIMM16 bit ranges of the wait-count fields",
